@@ -161,7 +161,41 @@ def r16_5(ctx: Ctx) -> None:
               construct="check_archive_path climb check")
 
 
+def r16_6(ctx: Ctx) -> None:
+    """the shared containment verdict (is_path_valid -> is_relative_to) is sound and complete for the root itself."""
+    h = ctx.prog.func("helpers", "is_relative_to")
+    hc = cfg_of(h.node)
+    trues = [n for n in walk(h.node) if isinstance(n, ast.Return) and isinstance(n.value, ast.Constant) and n.value.value is True]
+    rel = [c for c in q.calls(h) if attr_tail(c) == "relative_to"]
+    ok = bool(trues) and bool(rel)
+    for t in trues:
+        tn = q.node_for(h, t)
+        for hn in [n for n in hc.nodes if n.kind == "handler"]:
+            if hc.reaches(hn, tn):
+                ok = False
+        if rel and not hc.dominates(q.node_for(h, rel[0]), tn):
+            ok = False
+    for r in [n for n in walk(h.node) if isinstance(n, ast.Return) and n not in trues]:
+        if not (isinstance(r.value, ast.Constant) and r.value.value is False):
+            ok = False
+    ctx.check(ok, "R16.6", h, h.node, "is_relative_to: True iff PurePath.relative_to succeeds (the root itself counts as inside)",
+              "is_relative_to is no longer 'relative_to() succeeded': e.g. a membership test in .parents rejects a name that resolves exactly to the root ('a/..'), "
+              "so writestr/writef refuse names that stay inside", construct="is_relative_to verdict")
+    base_canon = any(isinstance(a, ast.Call) and attr_tail(a) == "canonical_path" for c in rel for a in c.args)
+    ctx.check(base_canon, "R16.6", h, rel[0] if rel else h.node, "base canonicalised", "is_relative_to compares against a non-canonical base")
+    g = ctx.prog.func("helpers", "is_path_valid")
+    for r in [n for n in walk(g.node) if isinstance(n, ast.Return)]:
+        v = r.value
+        good = isinstance(v, ast.Call) and attr_tail(v) == "is_relative_to" and v.args and isinstance(v.args[0], ast.Call) and attr_tail(v.args[0]) == "canonical_path"
+        ctx.check(bool(good), "R16.6", g, r, "is_path_valid canonicalises before comparing", "is_path_valid compares without canonicalising the target")
+    cp = ctx.prog.func("helpers", "canonical_path")
+    pops = [c for c in q.calls(cp) if attr_tail(c) == "pop"]
+    dd = [n for n in walk(cp.node) if isinstance(n, ast.Compare) and any(isinstance(x, ast.Constant) and x.value == ".." for x in ast.walk(n))]
+    ctx.check(bool(pops) and bool(dd), "R16.6", cp, cp.node, "canonical_path resolves '..' by popping", "canonical_path no longer resolves '..' components", construct="canonical_path pops")
+
+
 def run(ctx: Ctx) -> None:
+    r16_6(ctx)
     r16_1(ctx)
     r16_2(ctx)
     r16_3(ctx)
